@@ -40,6 +40,12 @@
 
 #include <unistd.h>
 #include <fcntl.h>
+#ifdef LIBERASURECODE_VERIF
+#include "erasurecode_verif.h"
+extern int *log_table;
+#else
+#define VERIF_ACCESS_R(obj, site) ((void)0)
+#endif
 
 void print_matrix(int *matrix, int rows, int cols)
 {
@@ -247,6 +253,7 @@ int * make_systematic_matrix(int k, int m)
   int *matrix = create_non_systematic_vand_matrix(k, m);
 
   if (NULL == matrix) return NULL;
+  VERIF_ACCESS_R(&log_table, "galois.tables:make_systematic_matrix");
 
   // The first row is already 1, 0, 0, ..., 0
   for (i = 1; i < cols; i++) {
@@ -404,6 +411,7 @@ int liberasurecode_rs_vand_encode(int *generator_matrix, char **data, char **par
   int i;
   int n = k + m;
 
+  VERIF_ACCESS_R(&log_table, "galois.tables:encode");
   for (i = k; i < n; i++) {
     memset(parity[i - k], 0, blocksize);
     region_dot_product(data, parity[i - k], &generator_matrix[(i * k)], k, blocksize);
@@ -436,6 +444,7 @@ int liberasurecode_rs_vand_decode(int *generator_matrix, char **data, char **par
   int i = 0;
   int num_missing = 0;
 
+  VERIF_ACCESS_R(&log_table, "galois.tables:decode");
   memset(_missing, 0, sizeof(int)*n);
 
   while (missing[num_missing] > -1) {
@@ -492,6 +501,7 @@ int liberasurecode_rs_vand_reconstruct(int *generator_matrix, char **data, char 
   int i, j;
   int num_missing = 0;
 
+  VERIF_ACCESS_R(&log_table, "galois.tables:reconstruct");
   memset(_missing, 0, sizeof(int)*n);
 
   while (missing[num_missing] > -1) {
